@@ -99,12 +99,12 @@ UNIT = {
                            'invariant': [
                              ('all_parts', 'parts@ == parts_all && self.position == end0 && lx_wf(self.position, self.input@)'),
                              ('no_tweak_applies', 'parts_all[0]@ != "item"@ && !(old(self).till_in && exists |i: int| first_in(parts_all, i))'),
-                             ('frame', 'self.input == old(self).input && self.scope == old(self).scope && self.till_in == old(self).till_in && self.type_name == old(self).type_name'),
+                             ('frame', 'self.input == old(self).input && self.scope == old(self).scope && self.till_in == old(self).till_in && !self.type_name && type_name_expected == old(self).type_name'),
                              ('keys', 'forall |k: String| #[trigger] flattened_keys@.contains(k) <==> scope_keys(*self.scope).contains(k@)'),
                              ('scan', 'name_scan(self.input@, old(self).position as int, parts@, consumed_positions@, self.position as int)'),
                              ('longer_prefixes_unbound', 'part_count <= parts@.len() && forall |k2: int| part_count < k2 <= parts@.len() ==> !scope_keys(*self.scope).contains(#[trigger] flat(parts@.subrange(0, k2)))')]},
                        2: {'invariant': [
-                             ('frame', 'self.input == old(self).input && self.scope == old(self).scope && self.till_in == old(self).till_in && self.type_name == old(self).type_name && self.type_name'),
+                             ('frame', 'self.input == old(self).input && self.scope == old(self).scope && self.till_in == old(self).till_in && !self.type_name && type_name_expected && old(self).type_name'),
                              ('all_parts', 'parts@ == parts_all && self.position == end0 && lx_wf(self.position, self.input@)'),
                              ('scan', 'name_scan(self.input@, old(self).position as int, parts@, consumed_positions@, self.position as int)'),
                              ('no_tweak_applies', 'parts_all[0]@ != "item"@ && !(old(self).till_in && exists |i: int| first_in(parts_all, i)) && no_match(parts_all, scope_keys(*old(self).scope)) && name == name_of_parts(parts_all)'),
@@ -113,7 +113,7 @@ UNIT = {
                      ('RX', 'R14', r'let mut consumed_positions = vec!\[\];', 'let mut consumed_positions: Vec<usize> = vec![];', 1),
                      ('RX', 'R11', r'part_name == "item"', 'string_is(part_name, "item")', 1),
                      ('RX', 'R11', r'Name::from\("item"\)', 'name_from_str("item")', 1),
-                     ('RX', 'R13', r'parts\.iter\(\)\.position\(\|value\| value == "in"\)\.filter\(\|index\| \*index > 0\)', 'position_of_in(&parts)', 1),
+                     ('RX', 'R13', r'parts\.iter\(\)\.(r?)position\(\|value\| value == "in"\)\.filter\(\|index\| \*index > 0\)', r'\1position_of_in(&parts)', 1),
                      ('RX', 'R11', r'TokenValue::Name\(parts\.to_vec\(\)\.into\(\)\)', 'TokenValue::Name(name_from_parts(parts.as_slice()))', 1),
                      ('RX', 'R11', r'TokenValue::Name\(part_sublist\.to_vec\(\)\.into\(\)\)', 'TokenValue::Name(name_from_parts(part_sublist))', 1),
                      ('RX', 'R11', r'let name: Name = parts\.to_vec\(\)\.into\(\);', 'let name: Name = name_from_parts(parts.as_slice());', 1),
@@ -134,7 +134,10 @@ BOUNDED = {
                       'written canonically and with single spaces between all parts, alone and followed by " + 1", with and without the words themselves bound; parse + evaluate under catch_unwind must give the bound value; '
                       'plus entry names INSIDE bound values (a nested context; the items of a bound list at each of 3 positions beside null / number / other-context items) used in `N - 1`, '
                       'and 13 context literals over outer names a, b in which an entry key spelled like an operator expression is bound for the later entries but not inside its own value '
-                      '(the string code - trim / join / replace / format! - that decides whether flattened parts equal a flattened key is outside Verus\' reach)'}],
+                      '(the string code - trim / join / replace / format! - that decides whether flattened parts equal a flattened key is outside Verus\' reach)'},
+            {'name': 'iteration-variable-names', 'driver': 'feelcases', 'args': ['/verif/replay/cases/C10_iteration_names.txt', 'all'],
+             'functions': ['Lexer::consume_name (the name before `in` in for / some / every)', 'Parser actions that register the variable'],
+             'bound': '7 for / some / every expressions over bound one- and two-word names whose body uses the `in` operator on names again (the variable ends before the FIRST `in`)'}],
 }
 NOT_DECIDED = {'C10': ['flatten_name_parts, Name::new, FeelContext::flatten_keys are string code (trim, join, replace, format!): named by uninterpreted functions in the contract; their agreement is only checked by the bounded stand-in',
                        'names whose first word is `item` and names before `in` in iteration contexts follow the two tweaks spelled out in the contract (code-derived), not the longest-match rule',
